@@ -169,3 +169,14 @@ package glyf
 //@   loop 0
 //@     invariant len(d2.Components) == len(d.Components) && fresh(d2.Components) && off(d2.Components) == 0
 //@     invariant forall k int :: 0 <= k && k < iter ==> d2.Components[k].GlyphIndex == newGid[d.Components[k].GlyphIndex] && d2.Components[k].Flags == d.Components[k].Flags && d2.Components[k].Data == d.Components[k].Data
+
+// Round trip (lemma over the contracts of encodeLoca and decodeLoca): the
+// offsets written to a "loca" table are the offsets read back, in either
+// format (partial: that the decoder accepts every table the encoder writes is
+// not stated; its acceptance test is a chain argument over all entries).  i is the arbitrary index the lemma speaks about.
+//@ func verifLocaRoundTrip(offs []int, glyfData []byte, i int) (res []int, err error)   props: C11 C01
+//@   requires len(offs) >= 2 && len(offs) <= 65537 && offs[len(offs)-1] <= len(glyfData) && offs[len(offs)-1] <= 4294967295
+//@   requires forall k int :: 0 <= k && k < len(offs) ==> 0 <= offs[k] && offs[k]%2 == 0 && offs[k] <= offs[len(offs)-1]
+//@   requires forall k int :: 1 <= k && k < len(offs) ==> offs[k-1] <= offs[k]
+//@   ensures err == nil ==> len(res) == len(offs)
+//@   ensures err == nil && 0 <= i && i < len(offs) ==> res[i] == offs[i]
